@@ -16,7 +16,7 @@ OPTS = {
  'direct': ([], [], ['T_ChoC'], ('der', 'oer')),
  'combo': (['-fcompound-names', '-fno-constraints', '-fincludes-quoted'], [], ['T_Seq', 'T_Cho'], ('der',)),
 }
-Q = {('noconstr', 'T_Seq'), ('wide', 'T_Int'), ('widec', 'T_Int8'), ('indirect', 'T_ChoC'), ('direct', 'T_ChoC'), ('compound', 'T_Cho'), ('combo', 'T_Seq'), ('nodeps', 'T_SeqOf')}
+Q = {('noconstr', 'T_Seq'), ('wide', 'T_Int'), ('wide', 'T_IntSemi'), ('widec', 'T_Int8'), ('indirect', 'T_ChoC'), ('direct', 'T_ChoC'), ('compound', 'T_Cho'), ('combo', 'T_Seq'), ('nodeps', 'T_SeqOf')}
 HARNESSES = []
 for on, (opts, defs, types, ks) in OPTS.items():
     for t in types:
